@@ -63,7 +63,8 @@ Definition chk_stock (W : nat) (stock dem : mat) (prodv : vec) (istock : mat) : 
   let add := stock_add P del in
   mcmp (nS P) N (fun p f => if isinf P p then 0 else
                    qabs (get stock p f) + qabs (get use p f) + qabs (get add p f))
-       (stock_update P stock add use) istock.
+       (tab2 (nS P) N (fun p f => if isinf P p then 0
+                                  else get (stock_update P stock add use) p f)) istock.
 Definition chk_crash (W : nat) (stock dem : mat) (prodv : vec) (icrash : bool) : nat :=
   let del := deliver P W dem prodv in
   bcmp (distribute_crash P stock (stock_add P del) (stock_use P prodv)) icrash.
@@ -86,7 +87,8 @@ Definition chk_dist (W : nat) (stock dem : mat) (prodv : vec) (icrash : bool)
     match istock with None => 0%nat | Some s' =>
       mcmp (nS P) N (fun p f => if isinf P p then 0 else
                    qabs (get stock p f) + qabs (get use p f) + qabs (get add p f))
-           (stock_update P stock add use) s' end;
+           (tab2 (nS P) N (fun p f => if isinf P p then 0
+                                      else get (stock_update P stock add use) p f)) s' end;
     match iunmet with None => 0%nat | Some u =>
       vcmp N (fun f => sumn F (fun c => qabs (get dem f (N + c)))) (unmet P dem del) u end;
     match irprod with None => 0%nat | Some r =>
